@@ -269,6 +269,39 @@ func namedVhosts(doc obj) {
 	}
 }
 
+// slashNames gives some clusters and virtual hosts a name with path separators ("ns/name", "a/b/name"): accepted names
+// (the repository's TestClusterConfigWithSep), which directory mode cannot use as file names as they are - the dump
+// writes them under a sanitised name and clears stale files by name.
+func slashNames(rt *rapid.T, doc obj) (n int) {
+	rename := func(o obj) {
+		name, _ := o["name"].(string)
+		if name == "" || strings.Contains(name, "/") {
+			return
+		}
+		switch rapid.IntRange(0, 5).Draw(rt, "slashName") {
+		case 0:
+			o["name"] = "ns/" + name
+			n++
+		case 1:
+			o["name"] = "a/b/" + name
+			n++
+		}
+	}
+	for _, s := range asArr(doc["servers"]) {
+		for _, r := range asArr(asObj(s)["routers"]) {
+			for _, vh := range asArr(asObj(r)["virtual_hosts"]) {
+				rename(asObj(vh))
+			}
+		}
+	}
+	if cm := asObj(doc["cluster_manager"]); cm != nil {
+		for _, c := range asArr(cm["clusters"]) {
+			rename(asObj(c))
+		}
+	}
+	return n
+}
+
 func TestPropDirMode(t *testing.T) {
 	sh, _ := ev.Shard()
 	root := filepath.Join(ev.RunDir(), fmt.Sprintf("c19dir-s%d-%d", sh, os.Getpid()))
@@ -280,6 +313,7 @@ func TestPropDirMode(t *testing.T) {
 			inline["servers"] = arr{g.serverConfig()}
 		}
 		namedVhosts(inline) // directory mode names the files after the entries: they carry unique names
+		slashed := slashNames(rt, inline)
 		base := filepath.Join(root, fmt.Sprintf("%d", atomic.AddUint64(&dirSeq, 1)))
 		defer os.RemoveAll(base)
 		dirDoc := asObj(deepCopy(inline))
@@ -295,6 +329,9 @@ func TestPropDirMode(t *testing.T) {
 		}
 		if nv >= 2 {
 			cls = append(cls, "vhosts>=2-in-directory")
+		}
+		if slashed > 0 && nc+nv > 0 {
+			cls = append(cls, "name-with-path-separator")
 		}
 		ev.Case(partDir, nc >= 2 || nv >= 2, dirInput, func() interface{} {
 			return map[string]interface{}{"inline": string(inlineInput), "cluster_files": nc, "vhost_files": nv}
